@@ -91,6 +91,7 @@ type interpreter struct {
 	tables    map[*value]*table
 	funcs     map[string]int64
 	curV      uint64
+	fmtDepth  int
 	pools     map[*value][]value
 	onces     map[*value]bool
 	unwinding bool
